@@ -277,6 +277,17 @@ func (o *OutputCollector) validate() error {
 	return nil
 }
 
+// releaseFrom releases the batches at index i and after. A flush loop that
+// stops early calls it for the batches it has not written yet.
+func (o *OutputCollector) releaseFrom(i int) {
+	if i < 0 || i > len(o.batches) {
+		return
+	}
+	for _, ab := range o.batches[i:] {
+		ab.batch.Release()
+	}
+}
+
 // releaseBatches releases every batch still owned by the collector. Dispatch
 // error paths call this when a handler panics or returns after emitting, before
 // the normal flush loop has transferred/released those records.
